@@ -600,8 +600,10 @@ class Gen:
         rng.shuffle(opts)
         verify = None
         if rng.random() < 0.25:
-            # verification mode: Hash given (for hmac: constant-time compare); correct or tampered
-            verify = rng.choice(["good", "bad"])
+            # verification mode: Hash given (for hmac: constant-time compare); correct or tampered.
+            # Without hmac/1 a wrong Hash makes hex_bytes/2 raise domain_error(hex_encoding,_) instead
+            # of failing (both arguments instantiated) - outside this property, so only `good` there.
+            verify = rng.choice(["good", "bad"]) if mode == "hmac" else "good"
             h = expect
             if verify == "bad":
                 k = rng.randrange(len(h))
@@ -658,11 +660,11 @@ class Gen:
         # tampered variant must fail
         if tamper == "tag":
             k = rng.randrange(16)
-            goals.append("nth0(%d,T,X0), X1 is X0 xor %d, length(Pre,%d), append(Pre,[_|Post],T), append(Pre,[X1|Post],T2)" % (k, 1 << rng.randrange(8), k))
+            goals.append("nth0(%d,T,X0), X1 is xor(X0,%d), length(Pre,%d), append(Pre,[_|Post],T), append(Pre,[X1|Post],T2)" % (k, 1 << rng.randrange(8), k))
             goals.append("( crypto_data_decrypt(CT,%s,%s,%s,_,[%s]) -> R = accepted ; R = rejected )" % (A, K, IV, ",".join(["tag(T2)"] + eo[1:])))
         elif tamper == "ct":
             k = rng.randrange(len(data))
-            goals.append("nth0(%d,CTc,X0), X1 is X0 xor %d, length(Pre,%d), append(Pre,[_|Post],CTc), append(Pre,[X1|Post],CTc2), maplist(char_code,CT2,CTc2)" % (k, 1 << rng.randrange(8), k))
+            goals.append("nth0(%d,CTc,X0), X1 is xor(X0,%d), length(Pre,%d), append(Pre,[_|Post],CTc), append(Pre,[X1|Post],CTc2), maplist(char_code,CT2,CTc2)" % (k, 1 << rng.randrange(8), k))
             goals.append("( crypto_data_decrypt(CT2,%s,%s,%s,_,[%s]) -> R = accepted ; R = rejected )" % (A, K, IV, ",".join(do)))
         elif tamper == "aad":
             other = "aad(%s)" % pl_string(aadc + [0x78], rng)
@@ -879,7 +881,7 @@ def judge(c, impl, model, findings, stats):
             return bad("violation", "digest-error", "expected %s, got %s" % (c["expect_ans"], raw[:200]), impl=raw[:80])
         if c.get("verify"):
             want = "true" if c["verify"] == "good" else "false"
-            if ans == want:
+            if ans == want or (want == "true" and isinstance(ans, dict) and "E" not in ans):
                 return True
             return bad("violation", "digest-verify", "crypto_data_hash with Hash instantiated (%s value): expected %s, got %s" % (c["verify"], want, raw[:200]), impl=raw[:80])
         h = codes_of(ans.get("H")) if isinstance(ans, dict) and "E" not in ans else None
